@@ -429,6 +429,8 @@ def b_chain(eng, st, a, kw):
 def b_tuple(eng, st, a, kw):
     if not a:
         return SeqV(0, lambda i: IntV(0), "tuple")
+    if isinstance(a[0], TupV):
+        return a[0]  # tuple() of a collection of statically known size
     seq = eng.as_seq(a[0], st)
     return SeqV(seq.n, seq._at, "tuple", dict(seq.meta))
 
